@@ -106,6 +106,30 @@ func readerKindsOracle(res *RunResult, max int) {
 					addViolation(res, c, got, fmt.Sprintf("%s through a bytes.Reader: %s, expected %s (the reader left exactly behind the first frame)", e, got, want))
 				}
 			}
+			// the entry points that stop early: through a bytes.Reader (which can seek) they succeed on a
+			// valid first file and never move the reader beyond its frame
+			for _, e := range []string{"DecodeHeader", "DecodeHeaderAndFileID", "CheckIntegrity(headerOnly)"} {
+				e := e
+				got := guarded(func() string {
+					br := bytes.NewReader(data)
+					var err error
+					switch e {
+					case "DecodeHeader":
+						_, err = fit.DecodeHeader(br)
+					case "DecodeHeaderAndFileID":
+						_, _, err = fit.DecodeHeaderAndFileID(br)
+					default:
+						err = fit.CheckIntegrity(br, true)
+					}
+					if used := len(data) - br.Len(); err != nil || used > bounds[0] {
+						return fmt.Sprintf("%s %d", tag(err), used)
+					}
+					return "fine"
+				})
+				if got != "fine" {
+					addViolation(res, c, got, fmt.Sprintf("%s through a bytes.Reader: %s (first frame: %d bytes)", e, got, bounds[0]))
+				}
+			}
 		}
 	}
 	res.Notes = append(res.Notes, fmt.Sprintf("%d chained streams also through bytes.Reader / bufio.Reader / bytes.Buffer / strings.Reader / LimitedReader, with read faults on every file boundary behind a bufio.Reader", done))
